@@ -5,6 +5,7 @@ package main
 import (
 	"encoding/json"
 	"fmt"
+	"go/types"
 	"os"
 	"path/filepath"
 	"regexp"
@@ -27,6 +28,9 @@ func (o Obligation) Key() string { return o.Rule + " " + o.Construct }
 
 // Ctx is the state of one property check.
 type Ctx struct {
+	helpChecked map[*ssa.Function]bool
+	onceKeys    map[string]bool
+	lenEq       map[*types.Named]map[int][]int
 	derefVia    map[ssa.Instruction]ssa.Value
 	outcomeBusy map[*ssa.Function]bool
 	listBusy    map[*ssa.Phi]bool
@@ -278,4 +282,16 @@ func seedFromEnv() int {
 	var n int
 	fmt.Sscanf(os.Getenv("VERIF_SEED"), "%d", &n)
 	return n
+}
+
+// once reports true the first time it is asked about key.
+func (c *Ctx) once(key string) bool {
+	if c.onceKeys == nil {
+		c.onceKeys = map[string]bool{}
+	}
+	if c.onceKeys[key] {
+		return false
+	}
+	c.onceKeys[key] = true
+	return true
 }
